@@ -22,7 +22,16 @@ func main() {
 	out := flag.String("out", "", "evidence file (default <verif>/evidence/<prop>.json)")
 	verbose := flag.Bool("v", false, "print every obligation")
 	only := flag.String("only", "", "print only obligations whose key contains this string")
+	dumpPF := flag.Bool("dump-pf1", false, "print every PF1 site as func|kind|raw|normalised (tooling)")
 	flag.Parse()
+	if *dumpPF {
+		p, err := core.Load(*repo, os.Getenv("SA_GOOS"), "")
+		if err != nil {
+			panic(err)
+		}
+		rules.DumpPF1(rules.NewCtx(p, "quick", *verif))
+		return
+	}
 	start := time.Now()
 	if *out == "" {
 		*out = filepath.Join(*verif, "evidence", *prop+".json")
